@@ -13,6 +13,7 @@ position inside documented containers (`C15_rejects_in_dict`, `C15_rejects_in_se
 import EmdProps.C03
 import EmdProps.C04
 import EmdProps.C08
+import EmdProps.C02
 
 set_option linter.unusedSimpArgs false
 
@@ -85,5 +86,20 @@ example : (match mkArray realOps "t" [] "u" none none none .none with
     | .ok a => (match ArrayVal.fromBody realOps a.dataShape (a.toBody realOps) with
         | .ok b => b.rank == 0 && b.dataTok == "t" && b.units == "u" | .error _ => false)
     | .error _ => false) = true := by decide +kernel
+
+/-- C15 for Arrays: whatever the constructor ACCEPTS is read back as it was — for every form of the constructor's arguments
+    (`mkArray` succeeded), numpy-array dim vectors, and the last dim name not being the reserved `_labels_` on a non-stack
+    (known finding C15-K3, the forced hypothesis), reading what `to_h5` wrote succeeds and returns the Array's data token,
+    shape, units, stack flag, labels, dim units, dim names, and per axis the same vector (verbatim or numpy-equal) -/
+theorem C15_array_reads_back (ops : NumOps) (tok : String) (dataShape : List Nat) (units : String)
+    (dims : Option (List DimArg)) (names dunits : Option (List String)) (lab : LabelArg) (a : ArrayVal)
+    (h : mkArray ops tok dataShape units dims names dunits lab = .ok a) (hplain : PlainDims ops a)
+    (hnolabel : a.isStack = false → ∀ n, n + 1 = a.rank → a.dimNames.getD n "" ≠ "_labels_") :
+    ∃ b, ArrayVal.fromBody ops a.dataShape (a.toBody ops) = .ok b ∧
+      b.dataTok = a.dataTok ∧ b.dataShape = a.dataShape ∧ b.units = a.units ∧ b.isStack = a.isStack ∧
+      b.labels = a.labels ∧ b.dimUnits = a.dimUnits ∧ b.dimNames = a.dimNames ∧
+      ∀ n, n < a.rank → (b.dims.getD n [] = a.dims.getD n [] ∨ vecEq ops (a.dims.getD n []) (b.dims.getD n []) = true) := by
+  obtain ⟨h1, h2, h3, h4⟩ := C02_ctor_meets_hypotheses ops tok dataShape units dims names dunits lab a h
+  exact C02_roundtrip ops a h1 h2 hplain h3 h4 hnolabel
 
 end EmdProps
